@@ -43,3 +43,4 @@ CFG = {'level': 'exploration',
 CFG['level_text'] += ' A quarter of the go.mod rounds first change the go version on the same structure (AddGoStmt across and around 1.21, including pre-release versions); block order is judged by the version the file then declares.'
 CFG['level_text'] += ' Half of the multi-round cases continue on the structure of the previous round instead of re-parsing its output.'
 CFG['level_text'] += ' Use directories and replacement targets include paths ending in `//`.'
+CFG['level_text'] += ' A third of the rounds withdraw one to three existing exclusions (DropExclude, no Cleanup) right before the bulk call, so the blocks being sorted still hold dead lines.'
